@@ -354,21 +354,6 @@ func c14R5(p *core.Prog, r *core.Report, rule string) {
 	pk := p.Pkg("protocol")
 	n := -1
 	if pk != nil {
-		for _, f := range pk.Syntax {
-			for _, d := range f.Decls {
-				if gd, ok := d.(interface{ End() }); ok {
-					_ = gd
-				}
-			}
-		}
-		if obj := pk.Types.Scope().Lookup("ERROR_MSG"); obj != nil {
-			// length of the composite literal initialiser
-			for id, o := range pk.TypesInfo.Defs {
-				if o == obj {
-					_ = id
-				}
-			}
-		}
 		n = compositeLen(p, "protocol", "ERROR_MSG")
 	}
 	if n < 0 {
